@@ -478,3 +478,432 @@ Example patch_hypotheses_satisfiable :
   exists h' r, patch_s {| copy_untouched := true; copy_diffvals := false |} 5 h2 obj d = Ok (h', r) /\
                read 5 h' r = Ok (JObj [(of_ascii "b"%string, JArr [JObj []]); (of_ascii "a"%string, JArr [JInt 1])]).
 Proof. vm_compute. eexists. eexists. split; reflexivity. Qed.
+
+(* ------------------------------------------------------------------ association lists *)
+Lemma str_eqb_spec a b : reflect (a = b) (str_eqb a b).
+Proof.
+  destruct (str_eqb a b) eqn:E; constructor.
+  - apply str_eqb_eq. exact E.
+  - intros ->. rewrite str_eqb_refl in E. discriminate.
+Qed.
+
+Lemma assoc_remove_key {A} k k' (kv : list (pystr * A)) :
+  assoc k' (remove_key k kv) = if str_eqb k' k then None else assoc k' kv.
+Proof.
+  induction kv as [|[q v] rest IH]; simpl.
+  - destruct (str_eqb k' k); reflexivity.
+  - destruct (str_eqb_spec k q) as [->|Hkq]; simpl.
+    + rewrite IH. destruct (str_eqb_spec k' q); reflexivity.
+    + rewrite IH. destruct (str_eqb_spec k' q) as [->|Hq]; [|reflexivity].
+      destruct (str_eqb_spec q k); [congruence | reflexivity].
+Qed.
+
+Lemma assoc_set_key {A} k (v : A) k' kv :
+  assoc k' (set_key k v kv) = if str_eqb k' k then Some v else assoc k' kv.
+Proof.
+  induction kv as [|[q w] rest IH]; simpl.
+  - destruct (str_eqb k' k); reflexivity.
+  - destruct (str_eqb_spec k q) as [->|Hkq]; simpl.
+    + destruct (str_eqb_spec k' q); reflexivity.
+    + rewrite IH. destruct (str_eqb_spec k' q) as [->|Hq]; [|reflexivity].
+      destruct (str_eqb_spec q k); [congruence | reflexivity].
+Qed.
+
+Lemma set_key_absent {A} k (v : A) kv : assoc k kv = None -> set_key k v kv = kv ++ [(k, v)].
+Proof.
+  induction kv as [|[q w] rest IH]; simpl; intros H; [reflexivity|].
+  destruct (str_eqb k q); [discriminate|]. rewrite IH; auto.
+Qed.
+
+Lemma remove_key_absent {A} k (kv : list (pystr * A)) : assoc k kv = None -> remove_key k kv = kv.
+Proof.
+  induction kv as [|[q w] rest IH]; simpl; intros H; [reflexivity|].
+  destruct (str_eqb k q); [discriminate|]. rewrite IH; auto.
+Qed.
+
+(* pop k then d[k] = v restores the dict as a mapping (not its insertion order) *)
+Lemma pop_restore_assoc {A} k (v : A) kv :
+  assoc k kv = Some v -> forall q, assoc q (set_key k v (remove_key k kv)) = assoc q kv.
+Proof.
+  intros H q. rewrite assoc_set_key, assoc_remove_key. destruct (str_eqb_spec q k) as [->|]; auto.
+Qed.
+
+(* ------------------------------------------------------------------ diff_single_outputs *)
+(* two cells are the same mapping / the same list *)
+Definition cells_equiv (c c' : cell) : Prop :=
+  c = c' \/ exists kv kv', c = CDict kv /\ c' = CDict kv' /\ forall k, assoc k kv = assoc k kv'.
+
+(* every object of h is still there in h' with the same contents up to dict insertion order *)
+Definition heap_equiv (h h' : heap) : Prop :=
+  forall l c, nth_error h l = Some c -> exists c', nth_error h' l = Some c' /\ cells_equiv c c'.
+
+Lemma cells_equiv_trans a b c : cells_equiv a b -> cells_equiv b c -> cells_equiv a c.
+Proof.
+  intros [->|[k1 [k2 [-> [-> H1]]]]] [E|[k3 [k4 [E3 [-> H2]]]]]; subst.
+  - left; auto.
+  - right. eauto.
+  - right. eauto.
+  - inversion E3; subst. right. exists k1, k4. repeat split; auto. intros k. rewrite H1. apply H2.
+Qed.
+
+Lemma heap_equiv_refl h : heap_equiv h h.
+Proof. intros l c H. exists c. split; auto. left; auto. Qed.
+
+Lemma heap_equiv_trans h1 h2 h3 : heap_equiv h1 h2 -> heap_equiv h2 h3 -> heap_equiv h1 h3.
+Proof.
+  intros A B l c H. destruct (A _ _ H) as [c2 [H2 E2]]. destruct (B _ _ H2) as [c3 [H3 E3]].
+  exists c3. split; auto. eapply cells_equiv_trans; eauto.
+Qed.
+
+Lemma nth_error_lt {A} (l : list A) i x : nth_error l i = Some x -> i < length l.
+Proof. intros H. apply nth_error_Some. congruence. Qed.
+
+(* one pop / deepcopy / restore round on the dict at l, no fault *)
+Lemma pop_copy_restore_ok fin n h l h' oc :
+  pop_copy_restore fin false n h l = (h', oc, None) ->
+  exists kv v,
+    nth_error h l = Some (CDict kv) /\ assoc k_data kv = Some v /\
+    nth_error h' l = Some (CDict (remove_key k_data kv ++ [(k_data, v)])) /\
+    length h <= length h' /\
+    forall l0, l0 <> l -> l0 < length h -> nth_error h' l0 = nth_error h l0.
+Proof.
+  unfold pop_copy_restore, dict_pop. intros H.
+  destruct (nth_error h l) as [[vs|kv]|] eqn:Ec; try (inversion H; fail).
+  destruct (assoc k_data kv) as [v|] eqn:Ea; [|inversion H].
+  set (h1 := upd h l (CDict (remove_key k_data kv))) in *.
+  destruct (deepcopy n h1 (VRef l)) as [[h2 cj]|e] eqn:Ed.
+  2:{ destruct fin; [destruct (dict_set h1 l k_data v)|]; inversion H. }
+  destruct (deepcopy_fresh (length h1) n h1 (VRef l) h2 cj (le_n _) Ed) as [X _].
+  pose proof (nth_error_lt _ _ _ Ec) as Hl.
+  assert (L1 : length h1 = length h) by apply length_upd.
+  assert (C1 : nth_error h1 l = Some (CDict (remove_key k_data kv))) by (eapply nth_error_upd_same; eauto).
+  assert (C2 : nth_error h2 l = Some (CDict (remove_key k_data kv))).
+  { rewrite (gext_old _ _ _ _ X); [exact C1 | lia]. }
+  unfold dict_set in H. rewrite C2 in H. inversion H; subst. clear H.
+  exists kv, v. repeat split; auto.
+  - erewrite nth_error_upd_same by eauto. f_equal. f_equal. apply set_key_absent.
+    rewrite assoc_remove_key. rewrite str_eqb_refl. reflexivity.
+  - rewrite length_upd. apply gext_length in X. lia.
+  - intros l0 Hne Hlt. rewrite nth_error_upd_other by exact Hne.
+    rewrite (gext_old _ _ _ _ X) by lia. apply nth_error_upd_other. exact Hne.
+Qed.
+
+Lemma pop_copy_restore_equiv fin n h l h' oc :
+  pop_copy_restore fin false n h l = (h', oc, None) -> heap_equiv h h' /\ length h <= length h'.
+Proof.
+  intros H. destruct (pop_copy_restore_ok _ _ _ _ _ _ H) as [kv [v [Hc [Ha [Hc' [Hlen Hother]]]]]].
+  split; auto. intros l0 c Hl0. destruct (Nat.eq_dec l0 l) as [->|Hne].
+  - rewrite Hc in Hl0. inversion Hl0; subst. eexists. split; [exact Hc'|]. right.
+    exists kv, (remove_key k_data kv ++ [(k_data, v)]). repeat split; auto.
+    intros k. rewrite <- (set_key_absent k_data v (remove_key k_data kv)).
+    + symmetry. apply pop_restore_assoc. exact Ha.
+    + rewrite assoc_remove_key, str_eqb_refl. reflexivity.
+  - exists c. split; [|left; auto]. rewrite Hother; auto. eapply nth_error_lt; eauto.
+Qed.
+
+Lemma dso_no_fault_inv fin n h a b h' :
+  dso fin None n h a b = (h', Returned) ->
+  exists h1 oc1 oc2, pop_copy_restore fin false n h a = (h1, oc1, None) /\
+                     pop_copy_restore fin false n h1 b = (h', oc2, None).
+Proof.
+  unfold dso. intros H.
+  destruct (pop_copy_restore fin false n h a) as [[h1 oc1] [e1|]] eqn:E1; [inversion H|].
+  destruct (pop_copy_restore fin false n h1 b) as [[h2 oc2] [e2|]] eqn:E2; [inversion H|].
+  inversion H; subst. eauto.
+Qed.
+
+(* on the normal path every object alive before the call -- in particular both outputs and everything they
+   hold -- has the same contents afterwards, as JSON values (dicts compared as mappings) *)
+Theorem dso_restores fin n h a b h' :
+  dso fin None n h a b = (h', Returned) -> heap_equiv h h'.
+Proof.
+  intros H. destruct (dso_no_fault_inv _ _ _ _ _ _ H) as [h1 [oc1 [oc2 [E1 E2]]]].
+  eapply heap_equiv_trans; [eapply pop_copy_restore_equiv; eauto | eapply pop_copy_restore_equiv; eauto].
+Qed.
+
+(* ... but 'data' has moved to the end of each output's key order *)
+Theorem dso_moves_data_last fin n h a b h' :
+  a <> b -> b < length h -> dso fin None n h a b = (h', Returned) ->
+  exists kva va kvb vb,
+    nth_error h a = Some (CDict kva) /\ assoc k_data kva = Some va /\
+    nth_error h b = Some (CDict kvb) /\ assoc k_data kvb = Some vb /\
+    nth_error h' a = Some (CDict (remove_key k_data kva ++ [(k_data, va)])) /\
+    nth_error h' b = Some (CDict (remove_key k_data kvb ++ [(k_data, vb)])).
+Proof.
+  intros Hab Lb H. destruct (dso_no_fault_inv _ _ _ _ _ _ H) as [h1 [oc1 [oc2 [E1 E2]]]].
+  destruct (pop_copy_restore_ok _ _ _ _ _ _ E1) as [kva [va [Ha [Hva [Ha1 [Hlen1 Ho1]]]]]].
+  destruct (pop_copy_restore_ok _ _ _ _ _ _ E2) as [kvb [vb [Hb [Hvb [Hb2 [Hlen2 Ho2]]]]]].
+  pose proof (nth_error_lt _ _ _ Ha) as La.
+  assert (Hb0 : nth_error h b = Some (CDict kvb)) by (rewrite <- Ho1; auto).
+  exists kva, va, kvb, vb. repeat split; auto.
+  rewrite Ho2; auto. lia.
+Qed.
+
+(* concrete outputs: {"data": {"text/plain": "x"}, "metadata": {}, "output_type": "display_data"} *)
+Definition wit_output (txt : pystr) : json :=
+  JObj [(of_ascii "data"%string, JObj [(of_ascii "text/plain"%string, JStr txt)]);
+        (of_ascii "metadata"%string, JObj []);
+        (of_ascii "output_type"%string, JStr (of_ascii "display_data"%string))].
+
+Definition run_dso (fin : bool) (fault : option nat) (ja jb : json) : option (heap * heap * outcome * sval * sval) :=
+  let '(h1, va) := load [] ja in
+  let '(h2, vb) := load h1 jb in
+  match va, vb with
+  | VRef la, VRef lb => let '(h3, out) := dso fin fault 6 h2 la lb in Some (h2, h3, out, va, vb)
+  | _, _ => None
+  end.
+
+(* the hypotheses of dso_restores are satisfiable, and the key order DOES change while the canonical value does not *)
+Theorem dso_changes_key_order_only :
+  exists h h' va vb,
+    run_dso false None (wit_output (of_ascii "x"%string)) (wit_output (of_ascii "y"%string)) = Some (h, h', Returned, va, vb) /\
+    read 6 h' va <> read 6 h va /\ cread 6 h' va = cread 6 h va /\ cread 6 h' vb = cread 6 h vb.
+Proof.
+  vm_compute. do 4 eexists. split; [reflexivity|]. split; [discriminate|]. split; reflexivity.
+Qed.
+
+(* hazard: when copy.deepcopy raises between pop and restore and the restore is not in a finally clause,
+   the output has lost its 'data' *)
+Theorem dso_fault_loses_data :
+  exists h h' va vb,
+    run_dso false (Some 0) (wit_output (of_ascii "x"%string)) (wit_output (of_ascii "y"%string)) = Some (h, h', Raised 0, va, vb) /\
+    cread 6 h' va <> cread 6 h va.
+Proof. vm_compute. do 4 eexists. split; [reflexivity | discriminate]. Qed.
+
+(* with the restore in a finally clause the same fault is harmless *)
+Theorem dso_fault_protected_example :
+  exists h h' va vb,
+    run_dso true (Some 0) (wit_output (of_ascii "x"%string)) (wit_output (of_ascii "y"%string)) = Some (h, h', Raised 0, va, vb) /\
+    cread 6 h' va = cread 6 h va /\ cread 6 h' vb = cread 6 h vb.
+Proof. vm_compute. do 4 eexists. split; [reflexivity | split; reflexivity]. Qed.
+
+(* ------------------------------------------------------------------ MergeDecisionBuilder.validated *)
+Definition strip_strategy (c : cell) : cell :=
+  match c with CDict kv => CDict (remove_key k_strategy kv) | CList _ => c end.
+
+Lemma strip_idem c : strip_strategy (strip_strategy c) = strip_strategy c.
+Proof.
+  destruct c as [vs|kv]; simpl; auto. f_equal. apply remove_key_absent.
+  rewrite assoc_remove_key, str_eqb_refl. reflexivity.
+Qed.
+
+Definition is_ref (l : loc) (v : sval) : bool := match v with VRef l' => Nat.eqb l l' | VAtom _ => false end.
+
+Lemma del_strategy_spec h v l :
+  nth_error (del_strategy h v) l =
+  if is_ref l v then option_map strip_strategy (nth_error h l) else nth_error h l.
+Proof.
+  destruct v as [j|l']; simpl; auto.
+  destruct (nth_error h l') as [[vs|kv]|] eqn:E.
+  - destruct (Nat.eqb_spec l l') as [->|]; auto. rewrite E. reflexivity.
+  - unfold has_key. destruct (assoc k_strategy kv) eqn:Ea.
+    + rewrite nth_error_upd. destruct (Nat.eqb_spec l l') as [->|]; auto. rewrite E. reflexivity.
+    + destruct (Nat.eqb_spec l l') as [->|]; auto. rewrite E. simpl. rewrite remove_key_absent; auto.
+  - destruct (Nat.eqb_spec l l') as [->|]; auto. rewrite E. reflexivity.
+Qed.
+
+Lemma fold_del_strategy_spec ds : forall h l,
+  nth_error (fold_left del_strategy ds h) l =
+  if existsb (is_ref l) ds then option_map strip_strategy (nth_error h l) else nth_error h l.
+Proof.
+  induction ds as [|v ds IH]; intros h l; simpl; auto.
+  rewrite IH, del_strategy_spec. destruct (is_ref l v); simpl.
+  - destruct (existsb (is_ref l) ds); auto. destruct (nth_error h l); simpl; auto. rewrite strip_idem. reflexivity.
+  - reflexivity.
+Qed.
+
+(* validated() writes only to the decision dicts held in the builder's own list, and all it does to them is
+   delete the key "strategy"; every other object (in particular the diffs the decisions point to, which are
+   shared with the caller's arguments) keeps its contents *)
+Theorem validated_only_touches_own_gen h bl ds h' r :
+  nth_error h bl = Some (CList ds) ->
+  validated_s h bl = Ok (h', r) ->
+  forall l, l < length h ->
+    nth_error h' l = if existsb (is_ref l) ds then option_map strip_strategy (nth_error h l) else nth_error h l.
+Proof.
+  unfold validated_s. intros Hb H l Hl. rewrite Hb in H. inversion H; subst. clear H.
+  unfold alloc. simpl. rewrite nth_error_app1.
+  - apply fold_del_strategy_spec.
+  - assert (forall ds h, length (fold_left del_strategy ds h) = length h) as L.
+    { clear. induction ds as [|v ds IH]; intros h; simpl; auto. rewrite IH.
+      destruct v as [j|l]; simpl; auto. destruct (nth_error h l) as [[vs|kv]|]; auto.
+      destruct (has_key k_strategy kv); auto. apply length_upd. }
+    rewrite L. exact Hl.
+Qed.
+
+Example validated_example :
+  let h := [CDict [(of_ascii "action"%string, VAtom (JStr (of_ascii "base"%string))); (k_strategy, VAtom JNull); (of_ascii "local_diff"%string, VRef 1)];
+            CList []; CList [VRef 0]] in
+  exists h' r, validated_s h 2 = Ok (h', r) /\
+               nth_error h' 0 = Some (CDict [(of_ascii "action"%string, VAtom (JStr (of_ascii "base"%string))); (of_ascii "local_diff"%string, VRef 1)]) /\
+               nth_error h' 1 = nth_error h 1.
+Proof. vm_compute. do 2 eexists. repeat split; reflexivity. Qed.
+
+(* ------------------------------------------------------------------ apply_decisions *)
+Section ApplyInv.
+  Variable cfg : pcfg.
+  Variable h0 : heap.
+  Variable S : loc -> Prop.
+  Hypothesis Hcu : copy_untouched cfg = true.
+  Definition GA (l : loc) : Prop := length h0 <= l \/ S l.
+  (* S is closed under children in the initial heap *)
+  Hypothesis HS : forall l c l', S l -> nth_error h0 l = Some c -> In l' (crefs c) -> GA l'.
+
+  Definition inv (h : heap) : Prop :=
+    length h0 <= length h /\
+    (forall l, ~ GA l -> nth_error h l = nth_error h0 l) /\
+    (forall l c l', GA l -> nth_error h l = Some c -> In l' (crefs c) -> GA l').
+
+  Lemma inv_init : inv h0.
+  Proof.
+    split; [lia|]. split; [auto|]. intros l c l' [Hf|Hs] Hc Hin.
+    - apply nth_error_lt in Hc. lia.
+    - eapply HS; eauto.
+  Qed.
+
+  Lemma inv_gext h h' : inv h -> gext GA h h' -> inv h'.
+  Proof.
+    intros [L [Fr Cl]] X. pose proof (gext_length _ _ _ X) as L'.
+    split; [lia|]. split.
+    - intros l Hn. assert (l < length h0) by (unfold GA in Hn; lia).
+      rewrite (gext_old _ _ _ _ X) by lia. auto.
+    - intros l c l' Hg Hc Hin. destruct (Nat.lt_ge_cases l (length h)) as [Hlt|Hge].
+      + rewrite (gext_old _ _ _ _ X Hlt) in Hc. eauto.
+      + eapply (gext_new _ _ _ _ _ X Hge Hc); eauto.
+  Qed.
+
+  Lemma vrefs_set_nth vs i x l : In l (vrefs (set_nth vs i x)) -> In l (vrefs vs) \/ x = VRef l.
+  Proof.
+    revert i; induction vs as [|v rest IH]; intros [|i]; simpl; auto.
+    - intros H. apply in_app_or in H as [H|H].
+      + destruct x as [j|lx]; simpl in H; [contradiction|]. destruct H as [->|[]]. auto.
+      + left. apply in_or_app. auto.
+    - intros H. apply in_app_or in H as [H|H].
+      + left. apply in_or_app. auto.
+      + destruct (IH _ H); auto. left. apply in_or_app. auto.
+  Qed.
+
+  Lemma vrefs_set_key s x (kv : list (pystr * sval)) l :
+    In l (vrefs (map snd (set_key s x kv))) -> In l (vrefs (map snd kv)) \/ x = VRef l.
+  Proof.
+    induction kv as [|[q w] rest IH]; simpl.
+    - intros H. apply in_app_or in H as [H|[]]. destruct x as [j|lx]; simpl in H; [contradiction|].
+      destruct H as [->|[]]. auto.
+    - destruct (str_eqb s q); simpl; intros H; apply in_app_or in H as [H|H].
+      + destruct x as [j|lx]; simpl in H; [contradiction|]. destruct H as [->|[]]. auto.
+      + left. apply in_or_app. auto.
+      + left. apply in_or_app. auto.
+      + destruct (IH H); auto. left. apply in_or_app. auto.
+  Qed.
+
+  Lemma inv_store h par k x h' :
+    inv h -> vgood GA par -> vgood GA x -> store_item h par k x = Ok h' -> inv h'.
+  Proof.
+    intros [L [Fr Cl]] Hp Hx H. destruct par as [j|l]; simpl in H; [discriminate|]. simpl in Hp.
+    destruct (nth_error h l) as [[vs|kv]|] eqn:Ec; [| |discriminate]; destruct k as [i|s]; try discriminate.
+    - destruct (Nat.ltb i (length vs)); [|discriminate]. inversion H; subst. clear H.
+      split; [rewrite length_upd; lia|]. split.
+      + intros l0 Hn. rewrite nth_error_upd_other; auto. intros ->. contradiction.
+      + intros l0 c l' Hg Hc Hin. rewrite nth_error_upd in Hc. destruct (Nat.eqb_spec l0 l) as [->|].
+        * rewrite Ec in Hc. inversion Hc; subst. simpl in Hin. apply vrefs_set_nth in Hin as [Hin| ->].
+          -- eapply Cl; eauto.
+          -- exact Hx.
+        * eapply Cl; eauto.
+    - inversion H; subst. clear H.
+      split; [rewrite length_upd; lia|]. split.
+      + intros l0 Hn. rewrite nth_error_upd_other; auto. intros ->. contradiction.
+      + intros l0 c l' Hg Hc Hin. rewrite nth_error_upd in Hc. destruct (Nat.eqb_spec l0 l) as [->|].
+        * rewrite Ec in Hc. inversion Hc; subst. simpl in Hin. apply vrefs_set_key in Hin as [Hin| ->].
+          -- eapply Cl; eauto.
+          -- exact Hx.
+        * eapply Cl; eauto.
+  Qed.
+
+  Lemma assoc_in {A} k (kv : list (pystr * A)) x : assoc k kv = Some x -> In x (map snd kv).
+  Proof.
+    induction kv as [|[q w] rest IH]; simpl; [discriminate|].
+    destruct (str_eqb k q); intros H; [inversion H; auto | auto].
+  Qed.
+
+  Lemma child_good h v k x : inv h -> vgood GA v -> child h v k = Ok x -> vgood GA x.
+  Proof.
+    intros [L [Fr Cl]] Hv H. destruct v as [j|l]; simpl in H; [discriminate|]. simpl in Hv.
+    destruct x as [jx|lx]; simpl; auto.
+    destruct (nth_error h l) as [[vs|kv]|] eqn:Ec; [| |discriminate]; destruct k as [i|s]; try discriminate.
+    - unfold nth_res in H. destruct (nth_error vs i) eqn:En; [|discriminate]. inversion H; subst.
+      apply nth_error_In in En. eapply Cl; eauto. simpl. apply in_vrefs. exact En.
+    - destruct (assoc s kv) eqn:Ea; [|discriminate]. inversion H; subst.
+      eapply Cl; eauto. simpl. apply in_vrefs. eapply assoc_in; eauto.
+  Qed.
+
+  Lemma resolve_good h path : forall resolved parent parent' resolved',
+    inv h -> vgood GA resolved ->
+    (match parent with Some (p, _) => vgood GA p | None => True end) ->
+    resolve h resolved parent path = Ok (parent', resolved') ->
+    vgood GA resolved' /\ (match parent' with Some (p, _) => vgood GA p | None => True end).
+  Proof.
+    induction path as [|k rest IH]; intros resolved parent parent' resolved' Hi Hr Hp H; simpl in H.
+    - inversion H; subst. auto.
+    - destruct (child h resolved k) as [x|] eqn:Ech; simpl in H; [|discriminate].
+      eapply (IH x (Some (resolved, k))); [exact Hi | eapply child_good; eauto | exact Hr | exact H].
+  Qed.
+
+  Definition groups_good (groups : list (list key * list sentry)) : Prop :=
+    forall p d, In (p, d) groups -> dgood cfg GA d.
+
+  Lemma apply_groups_inv n : forall groups h merged h' m',
+    inv h -> vgood GA merged -> groups_good groups ->
+    apply_groups cfg n h merged groups = Ok (h', m') -> inv h' /\ vgood GA m'.
+  Proof.
+    induction groups as [|[path d] rest IH]; intros h merged h' m' Hi Hm Hg H; simpl in H.
+    - inversion H; subst. auto.
+    - destruct (resolve h merged None path) as [[parent resolved]|] eqn:Er; simpl in H; [|discriminate].
+      destruct (resolve_good _ _ _ _ _ _ Hi Hm I Er) as [Hres Hpar].
+      destruct (patch_s cfg n h resolved d) as [[h1 p]|] eqn:Ep; simpl in H; [|discriminate].
+      assert (HGf : forall l, length h0 <= l -> GA l) by (intros; left; auto).
+      destruct (patch_s_good cfg GA (length h0) Hcu HGf n h resolved d h1 p (proj1 Hi) (Hg _ _ (or_introl eq_refl)) Ep) as [X V].
+      pose proof (inv_gext _ _ Hi X) as Hi1.
+      assert (Hg' : groups_good rest) by (intros p0 d0 Hin; eapply Hg; right; eauto).
+      destruct parent as [[par k]|].
+      + destruct (store_item h1 par k p) as [h2|] eqn:Es; simpl in H; [|discriminate].
+        eapply IH; eauto. eapply inv_store; eauto.
+      + eapply IH; eauto.
+  Qed.
+End ApplyInv.
+
+(* apply_decisions(base, decisions): the objects of base keep their contents.  (Hypotheses: base is a closed value
+   of the initial heap, separate from the values carried by the decisions' diffs.) *)
+Theorem apply_base_untouched_gen cfg n h0 base groups h' m :
+  copy_untouched cfg = true ->
+  closed_in h0 base ->
+  (forall p d l, In (p, d) groups -> from_diff h0 d l -> ~ reach h0 base l) ->
+  apply_s cfg true n h0 base groups = Ok (h', m) ->
+  forall l, reach h0 base l -> nth_error h' l = nth_error h0 l.
+Proof.
+  intros Hcu Hcl Hsep H l Hr.
+  set (S := fun l => exists p d, In (p, d) groups /\ from_diff h0 d l).
+  assert (HS : forall l c l', S l -> nth_error h0 l = Some c -> In l' (crefs c) -> GA h0 S l').
+  { intros l1 c l' [p [d [Hin [v [Hv Hrv]]]]] Hc Hl'. right. exists p, d. split; auto. exists v. split; auto.
+    eapply reach_step; eauto. }
+  unfold apply_s in H. unfold cp in H.
+  destruct (deepcopy n h0 base) as [[h1 merged]|] eqn:Ed; simpl in H; [|discriminate].
+  destruct (deepcopy_producer (length h0) n h0 base h1 merged (le_n _) Ed) as [X V].
+  assert (HGf : forall l, fresh0 (length h0) l -> GA h0 S l) by (intros l1 Hl1; left; exact Hl1).
+  pose proof (inv_gext h0 S _ _ (inv_init h0 S HS) (gext_weaken _ _ _ _ HGf X)) as Hi1.
+  assert (Hg : groups_good cfg h0 S groups).
+  { intros p d Hin Hf. apply Forall_forall. intros v Hv. destruct v as [j|lv]; simpl; auto.
+    right. exists p, d. split; auto. exists (VRef lv). split; auto. constructor. }
+  destruct (apply_groups_inv cfg h0 S Hcu n groups h1 merged h' m Hi1 (vgood_weaken _ _ _ HGf V) Hg H) as [[_ [Fr _]] _].
+  apply Fr. intros [Hf|[p [d [Hin Hfd]]]].
+  - pose proof (Hcl _ Hr). lia.
+  - exact (Hsep _ _ _ Hin Hfd Hr).
+Qed.
+
+Example apply_hypotheses_satisfiable :
+  let '(h1, base) := load [] (JObj [(of_ascii "a"%string, JArr [JInt 1]); (of_ascii "m"%string, JObj [(of_ascii "x"%string, JArr [])])]) in
+  let '(h2, d) := load_diff h1 [DAdd (KS (of_ascii "y"%string)) (JArr [JObj []])] in
+  exists h' m, apply_s {| copy_untouched := true; copy_diffvals := false |} true 6 h2 base [([KS (of_ascii "m"%string)], d)] = Ok (h', m) /\
+               read 6 h' m = Ok (JObj [(of_ascii "a"%string, JArr [JInt 1]);
+                                       (of_ascii "m"%string, JObj [(of_ascii "y"%string, JArr [JObj []]); (of_ascii "x"%string, JArr [])])]) /\
+               read 6 h' base = read 6 h2 base.
+Proof. vm_compute. do 2 eexists. repeat split; reflexivity. Qed.
